@@ -261,6 +261,20 @@ class Model:
         self._attach(b, name)
         return Expect("ok", name)
 
+    def _other(self, op):
+        _, e, v = op
+        if e not in self.L or (v is not None and v not in self.V) or self.L[e]["cls"] not in TWO_ENDED:
+            return SKIP
+        ends = self.L[e]["verts"]
+        if len(ends) != 2:
+            return Expect("open")
+        # "figures out whether it's v1 or v2 of this edge, and returns v2 or v1 respectively"; an open end is None
+        if v == ends[0]:
+            return Expect("ok", ends[1])
+        if v == ends[1]:
+            return Expect("ok", ends[0])
+        return Expect("ok", None)
+
     def _unlink(self, op):
         _, a, b, destroy = op
         if a not in self.V or b not in self.V:
